@@ -119,9 +119,9 @@ func groupCorpus() []groupCase {
 	cs = append(cs,
 		groupCase{"no-packages-budget-0", nil, 0},
 		groupCase{"no-packages-budget-3", nil, 3},
-		groupCase{"negative-budget", abc, -1},             // make([]*group, 0, -1) panics (reported under C15)
-		groupCase{"negative-budget-no-packages", nil, -7}, // panics as well
-		groupCase{"cap-out-of-range", abc, 1<<45 + 1},     // makeslice: cap out of range
+		groupCase{"negative-budget", abc, -1},             // replay of the defect fixed by d47e591 (make([]*group, 0, budget) panicked); now one merged group
+		groupCase{"negative-budget-no-packages", nil, -7}, // same replay; now one EMPTY group
+		groupCase{"cap-out-of-range", abc, 1<<45 + 1},     // same replay (makeslice: cap out of range); now three groups
 		groupCase{"same-origin", []pkgDesc{{"x", "1", "o", 1, nil}, {"x-doc", "1", "o", 2, nil}, {"y", "1", "p", 9, nil}, {"x-dev", "1", "o", 3, nil}}, 2},
 		groupCase{"equal-sizes-tiebreak", []pkgDesc{{"m", "1", "om", 5, nil}, {"k", "1", "ok", 5, nil}, {"z", "1", "oz", 5, nil}, {"a", "1", "oa", 5, nil}}, 3},
 		groupCase{"replaces-chain", []pkgDesc{{"a", "1", "oa", 1, []string{"b"}}, {"b", "2", "ob", 1, []string{"c<3"}}, {"c", "2.5", "oc", 1, nil}, {"d", "1", "od", 50, nil}}, 3},
